@@ -159,6 +159,16 @@ func TestC11_Programs(t *testing.T) {
 							failures = append(failures, fmt.Sprintf("goroutine %d op %d %s: got %s, alone it answers %s", i, j, op, rankStr(a), rankStr(want[[2]int{op.Q, op.O}])))
 							mu.Unlock()
 						}
+						// the list belongs to this goroutine now: it re-scores and reverses it, which no other
+						// goroutine's answer (and no race report) may reflect
+						if (i+j)%2 == 0 {
+							for x, y := 0, len(got)-1; x < y; x, y = x+1, y-1 {
+								got[x], got[y] = got[y], got[x]
+							}
+							for x := range got {
+								got[x].Score = -1 - float64(x)
+							}
+						}
 					}
 				}
 			}(i)
